@@ -254,7 +254,8 @@ def prove(ctx, gen_modules, props_modules, thorough=False):
         rc2, out2, dt2 = sh(['lake', 'env', 'lean', audit], cwd=LEAN, timeout=900)
         cmds.append('lake env lean Audit.lean  (#print axioms on every property theorem)')
         cur = None
-        text = out2.replace('\n  ', ' ')
+        # long names make Lean wrap the axiom list over several lines ("[propext,\n Classical.choice, …")
+        text = re.sub(r'\n[ \t]+', ' ', out2)
         for line in text.split('\n'):
             m = re.match(r"^'([^']+)' depends on axioms: \[(.*)\]", line)
             if m:
